@@ -95,6 +95,8 @@ type Model struct {
 	MeltQuotes  []*MMeltQuote
 	Signed      map[string]SignedRec
 	SignedOrder []string
+	// outputs of requests the mint refused (never handed a signature, unless a later request got them signed)
+	Refused []cashu.BlindedMessage
 	Issued      map[string]uint64 // per keyset: sum of signatures handed out
 	Redeemed    map[string]uint64 // per keyset: sum of proofs consumed
 	Steps       int
@@ -315,6 +317,7 @@ func (w *World) MintTokens(q *MMintQuote, outs []Out, signature string) (cashu.B
 	sigs, err := w.Mint.MintTokens(nut04.PostMintBolt11Request{Quote: q.ID, Outputs: msgs, Signature: signature})
 	w.M.Steps++
 	if err != nil {
+		w.noteRefused(msgs)
 		return nil, err
 	}
 	var total uint64
@@ -437,6 +440,7 @@ func (w *World) Swap(inputs cashu.Proofs, outs []Out) (cashu.BlindedSignatures, 
 	sigs, err := w.Mint.Swap(inputs, Msgs(outs))
 	w.M.Steps++
 	if err != nil {
+		w.noteRefused(Msgs(outs))
 		return nil, err
 	}
 	var inSum, outSum uint64
@@ -455,6 +459,14 @@ func (w *World) Swap(inputs cashu.Proofs, outs []Out) (cashu.BlindedSignatures, 
 	w.AcceptInputs("swap", inputs, Spent, -1)
 	w.RecordSignatures("swap", outs, sigs)
 	return sigs, nil
+}
+
+func (w *World) noteRefused(msgs cashu.BlindedMessages) {
+	for _, bm := range msgs {
+		if len(w.M.Refused) < 256 {
+			w.M.Refused = append(w.M.Refused, bm)
+		}
+	}
 }
 
 // ---------------------------------------------------------------- melt
